@@ -214,7 +214,7 @@ RULES.append(("C15.e", "must-pass-through: no path around the effects this prope
 
 def rule_commit(ctx):
     from . import mustpass
-    for g, floor in [('time-cell', 5), ('sched-queue', 25), ('lockfree', 40)]:
+    for g, floor in [('time-cell', 5), ('sched-queue', 25), ('lockfree', 25)]:
         mustpass.commit_group(ctx, g, floor)
 
 
